@@ -82,6 +82,46 @@ def run(ctx):
             ctx.cov["traces_validated_against_impl"] += 1
     ctx.sample(dict(kind="multipart", frames=[f.hex() for f in meta[3][3]], impl=impl[3][:200]))
 
+    # ---- large forms: small fields and a file of tens of KiB, framed so that many file bytes share a frame with the fields.
+    # The model is evaluated once per body, under 512-byte frames: by C09_post_form_partition_free its answer is that of every framing.
+    big_cases, big_meta, big_exprs = [], [], []
+    for bi in range(2 if ctx.quick else 10):
+        boundary = rng.choice([b"BOUND", b"----WebKitFormBoundary7MA4YWxk"])
+        size = rng.choice([21 * 1024, 24 * 1024 + 17, 33000]) if ctx.quick else rng.choice([20 * 1024 + 1, 21 * 1024, 24 * 1024 + 17, 33000, 65536 + 5, 100000])
+        seed = rng.below(251)
+        content = bytes((seed + i * 13) % 251 for i in range(size))
+        fields = b"".join(b"--" + boundary + b"\r\nContent-Disposition: form-data; name=\"" + n + b"\"\r\n\r\n" + v + b"\r\n"
+                          for n, v in ((b"key", b"uploads/big.bin"), (b"x-amz-meta-a", b"1"), (b"policy", b"cG9saWN5")))
+        body = (fields + b"--" + boundary + b"\r\nContent-Disposition: form-data; name=\"file\"; filename=\"f.bin\"\r\nContent-Type: application/octet-stream\r\n\r\n"
+                + content + b"\r\n--" + boundary + b"--\r\n")
+        mid = len(fields) // 2
+        framings = [[body], [body[i:i + 1024] for i in range(0, len(body), 1024)], [body[:24 * 1024], body[24 * 1024:]],
+                    [body[:mid], body[mid:]], [body[i:i + 16384] for i in range(0, len(body), 16384)],
+                    [body[:len(fields) + 40], body[len(fields) + 40:]], [body[:-3], body[-3:]]]
+        for k, fr in enumerate(framings):
+            big_cases.append(dict(op="multipart", frames=[f.hex() for f in fr], boundary=boundary.hex(), transport_error=False, pending=k % 2))
+            big_meta.append((bi, boundary, len(body), [len(f) for f in fr]))
+        big_exprs.append("show_multipart true %s [%s] false" % (coq_bytes(boundary), ";".join(coq_bytes(body[i:i + 512]) for i in range(0, len(body), 512))))
+    big_impl = [r.get("out", "panic:" + r.get("panic", "")) for r in vlib.run_impl("c09", big_cases)]
+    big_model = [m.decode() for m in vlib.run_model("C09", IMPORTS, big_exprs, shard=1, timeout=1500)]
+    nd = 0
+    for (bi, boundary, n, lens), i in zip(big_meta, big_impl):
+        ctx.cov["evaluations"] += 1
+        ctx.count("multipart.large." + ("parsed" if i.startswith("fields") else i.split("|")[0][:12]))
+        ctx.nontrivial(("large", n, tuple(lens[:3]), i[:40]))
+        show = dict(kind="multipart-large", boundary=boundary.decode(), body_bytes=n, frame_lengths=lens[:40])
+        first = big_impl[[k for k, mm in enumerate(big_meta) if mm[0] == bi][0]]
+        if i != first:
+            ctx.violation(dict(stage="multipart", kind="the outcome depends on the framing of the body", case=show, outcome=i[:200] + "..." + i[-40:],
+                               single_frame_outcome=first[:200] + "..." + first[-40:]))
+        if i != big_model[bi]:
+            nd += 1
+            if nd <= 2:
+                ctx.violation(dict(stage="correspondence:multipart", kind="model and implementation differ on a large form", case=show,
+                                   impl=i[:200] + "..." + i[-40:], model=big_model[bi][:200] + "..." + big_model[bi][-40:]), has_input=False)
+        else:
+            ctx.cov["traces_validated_against_impl"] += 1
+
     # ---- chunk-signed bodies
     gen = c08.gen_cases(ctx)[: (25 if ctx.quick else 200)]
     cases, meta = [], []
